@@ -39,9 +39,6 @@ fn tag<T, U: DataType, V: DataType, const D: usize>(t: &Tds<T, U, V, D>) -> usiz
         TriangulationConstructionState::Constructed => usize::MAX,
     }
 }
-fn havoc<T, U: DataType, V: DataType, const D: usize>(t: &mut Tds<T, U, V, D>) {
-    t.construction_state = TriangulationConstructionState::Incomplete(kani::any());
-}
 fn vkey(n: u64) -> VertexKey {
     VertexKey::from(KeyData::from_ffi(n))
 }
@@ -66,24 +63,57 @@ fn flip_info<const D: usize>(removed: usize) -> FlipInfo<D> {
 }
 
 // ---- callee contracts ---------------------------------------------------------------------
+// Ghost state is WRITE-ONLY inside the stubs (distinct flag statics, outcomes chosen with
+// kani::any() inside the stub and recorded): a read-modify-write call log in stubs, combined with
+// the clone / drop of the Tds snapshot in the function under contract, makes kani 0.68 report
+// spurious `__rust_dealloc` failures whose assume() silently cuts every Ok path (seen in one
+// environment, not in another - see DESIGN.md 8).
+use core::sync::atomic::AtomicBool;
+static L_UNKNOWN: AtomicBool = AtomicBool::new(false);
+static L_KNOWN: AtomicBool = AtomicBool::new(false);
+static K1_WIRING: AtomicBool = AtomicBool::new(false);
+static K1_OTHER: AtomicBool = AtomicBool::new(false);
+static K1_OK: AtomicBool = AtomicBool::new(false);
+static FAN_OK: AtomicBool = AtomicBool::new(false);
+static FAN_ERR: AtomicBool = AtomicBool::new(false);
+static SHOULD_CALLED: AtomicBool = AtomicBool::new(false);
+static SHOULD_VAL: AtomicBool = AtomicBool::new(false);
+static REP_OK: AtomicBool = AtomicBool::new(false);
+static REP_ERR: AtomicBool = AtomicBool::new(false);
+const FAST_COUNT: usize = 2; // cells the fast path reports as removed
+const FAN_COUNT: usize = 3; // cells the fan path reports as removed
+
+fn reset_flags() {
+    L_UNKNOWN.store(false, AOrd::Relaxed);
+    L_KNOWN.store(false, AOrd::Relaxed);
+    K1_WIRING.store(false, AOrd::Relaxed);
+    K1_OTHER.store(false, AOrd::Relaxed);
+    K1_OK.store(false, AOrd::Relaxed);
+    FAN_OK.store(false, AOrd::Relaxed);
+    FAN_ERR.store(false, AOrd::Relaxed);
+    SHOULD_CALLED.store(false, AOrd::Relaxed);
+    SHOULD_VAL.store(false, AOrd::Relaxed);
+    REP_OK.store(false, AOrd::Relaxed);
+    REP_ERR.store(false, AOrd::Relaxed);
+}
+/// "the callee changed the triangulation": states made by callees live in [2^32, 2^33), the
+/// entry state below 2^32
+fn havoc<T, U: DataType, V: DataType, const D: usize>(t: &mut Tds<T, U, V, D>) {
+    t.construction_state = TriangulationConstructionState::Incomplete((1usize << 32) + kani::any::<u32>() as usize);
+}
 fn stub_lookup<T, U, V, const D: usize>(_t: &Tds<T, U, V, D>, _u: &Uuid) -> Option<VertexKey>
 where U: DataType, V: DataType {
-    vk_event(E_LOOKUP);
-    if vk_fails(B_UNKNOWN) { None } else { Some(vkey(0x1_0000_0001)) }
+    if kani::any() { L_UNKNOWN.store(true, AOrd::Relaxed); None } else { L_KNOWN.store(true, AOrd::Relaxed); Some(vkey(0x1_0000_0001)) }
 }
 /// inverse k=1 flip: Ok => the state changed (any); Err => ASSUMED unchanged (its rollback is not under contract)
 fn stub_k1inv<K, U, V, const D: usize>(
     tds: &mut Tds<K::Scalar, U, V, D>, _k: &K, _v: VertexKey,
 ) -> Result<FlipInfo<D>, FlipError>
 where K: Kernel<D>, U: DataType, V: DataType {
-    vk_event(E_K1INV);
-    if vk_fails(B_K1INV_ERR_WIRING) {
-        Err(FlipError::NeighborWiring { message: String::with_capacity(1) })
-    } else if vk_fails(B_K1INV_ERR_OTHER) {
-        Err(FlipError::UnsupportedDimension { dimension: 7 })
-    } else {
-        havoc(tds);
-        Ok(flip_info::<D>(VK_NCELLS.load(AOrd::Relaxed)))
+    match kani::any::<u8>() % 3 {
+        0 => { K1_WIRING.store(true, AOrd::Relaxed); Err(FlipError::NeighborWiring { message: String::with_capacity(1) }) }
+        1 => { K1_OTHER.store(true, AOrd::Relaxed); Err(FlipError::UnsupportedDimension { dimension: 7 }) }
+        _ => { K1_OK.store(true, AOrd::Relaxed); havoc(tds); Ok(flip_info::<D>(FAST_COUNT)) }
     }
 }
 /// fan removal: Ok(n) => the state changed (any); Err => unchanged (its own snapshot restore; ASSUMED)
@@ -91,32 +121,36 @@ fn stub_fan<K, U, V, const D: usize>(
     t: &mut Triangulation<K, U, V, D>, _v: &Vertex<K::Scalar, U, D>,
 ) -> Result<usize, crate::core::triangulation_data_structure::TdsMutationError>
 where K: Kernel<D>, U: DataType, V: DataType, K::Scalar: ScalarAccumulative + NumCast {
-    vk_event(E_FAN);
-    if vk_fails(B_FAN_ERR) {
+    if kani::any() {
+        FAN_ERR.store(true, AOrd::Relaxed);
         Err(TdsValidationError::InsufficientVertices {
             dimension: 3,
             source: crate::core::cell::CellValidationError::InvalidUuid { source: crate::core::util::UuidValidationError::NilUuid },
         }
         .into())
     } else {
+        FAN_OK.store(true, AOrd::Relaxed);
         havoc(&mut t.tds);
-        Ok(VK_NCELLS.load(AOrd::Relaxed))
+        Ok(FAN_COUNT)
     }
 }
 fn stub_should<K, U, V, const D: usize>(_d: &DelaunayTriangulation<K, U, V, D>, _t: TopologyGuarantee, _n: usize) -> bool
 where K: Kernel<D>, U: DataType, V: DataType {
-    vk_event(E_SHOULD);
-    vk_fails(B_SHOULD)
+    let b: bool = kani::any();
+    SHOULD_CALLED.store(true, AOrd::Relaxed);
+    SHOULD_VAL.store(b, AOrd::Relaxed);
+    b
 }
 /// repair wrapper: contract PROVED by unit repair.protocol (Ok => any change; Err => unchanged)
 fn stub_repair<K, U, V, const D: usize>(
     tds: &mut Tds<K::Scalar, U, V, D>, _k: &K, _s: Option<&[CellKey]>, _t: TopologyGuarantee,
 ) -> Result<DelaunayRepairStats, DelaunayRepairError>
 where K: Kernel<D>, K::Scalar: ScalarSummable, U: DataType, V: DataType {
-    vk_event(E_REPAIR);
-    if vk_fails(B_REPAIR_ERR) {
+    if kani::any() {
+        REP_ERR.store(true, AOrd::Relaxed);
         Err(DelaunayRepairError::Flip(FlipError::UnsupportedDimension { dimension: 9 }))
     } else {
+        REP_OK.store(true, AOrd::Relaxed);
         havoc(tds);
         Ok(DelaunayRepairStats { facets_checked: 0, flips_performed: 0, max_queue_len: 0 })
     }
@@ -127,7 +161,7 @@ fn stub_format(_a: core::fmt::Arguments<'_>) -> String {
 
 fn any_dt() -> Dt2 {
     let mut dt = Dt2::empty();
-    dt.tri.tds.construction_state = TriangulationConstructionState::Incomplete(kani::any());
+    dt.tri.tds.construction_state = TriangulationConstructionState::Incomplete(kani::any::<u32>() as usize);
     dt
 }
 
@@ -145,34 +179,36 @@ fn any_dt() -> Dt2 {
 fn remove_vertex_contract() {
     let mut dt = any_dt();
     let tag0 = tag(&dt.tri.tds);
-    let fail: u64 = kani::any();
-    let count: usize = kani::any();
-    kani::assume(count <= 3);
-    vk_reset(fail, count);
+    reset_flags();
     let v: Vertex<f64, (), 2> = Vertex::new_with_uuid(Point::new([0.0, 0.0]), Uuid::nil(), None);
     let r = dt.remove_vertex(&v);
-    let bit = |b: u64| (fail >> b) & 1 == 1;
-    if bit(B_UNKNOWN) {
-        assert!(matches!(r, Ok(0)) && vk_ncalls() == 1 && tag(&dt.tri.tds) == tag0,
+    let f = |a: &AtomicBool| a.load(AOrd::Relaxed);
+    let k1_called = f(&K1_WIRING) || f(&K1_OTHER) || f(&K1_OK);
+    let fan_called = f(&FAN_OK) || f(&FAN_ERR);
+    let repair_called = f(&REP_OK) || f(&REP_ERR);
+    if f(&L_UNKNOWN) {
+        assert!(matches!(r, Ok(0)) && !k1_called && !fan_called && !repair_called && !f(&SHOULD_CALLED) && tag(&dt.tri.tds) == tag0,
             "OBL unknown-noop: removing an unknown vertex is Ok(0), reaches no mutating callee and changes nothing");
     } else {
+        assert!(k1_called, "OBL fastpath-first: the inverse k=1 flip is always tried first");
+        assert!(fan_called == f(&K1_OTHER), "OBL fan-fallback: the fan retriangulation runs iff the fast path is not applicable");
         match &r {
             Ok(n) => {
-                assert!(*n == count, "OBL ok-count: Ok(n) reports the cells removed by the path that ran (fast path: removed_cells.len(); fan path: its result)");
-                assert!(vk_called(E_REPAIR) == bit(B_SHOULD), "OBL repair-iff-policy: the repair runs iff should_run_delaunay_repair_for says so");
-                assert!(vk_called(E_K1INV), "OBL fastpath-first: the inverse k=1 flip is always tried first");
+                assert!((f(&K1_OK) && *n == FAST_COUNT) || (f(&FAN_OK) && *n == FAN_COUNT),
+                    "OBL ok-count: Ok(n) reports the cells removed by the path that ran (fast path: removed_cells.len(); fan path: its result)");
+                assert!(f(&SHOULD_CALLED) && repair_called == f(&SHOULD_VAL) && !f(&REP_ERR), "OBL repair-iff-policy: the repair runs iff should_run_delaunay_repair_for says so");
             }
             Err(_) => {
                 assert!(tag(&dt.tri.tds) == tag0, "OBL err-unchanged: Err => the triangulation is exactly as it was before the call");
             }
         }
-        let fast_ok = !bit(B_K1INV_ERR_WIRING) && !bit(B_K1INV_ERR_OTHER);
-        assert!(vk_called(E_FAN) == (!fast_ok && !bit(B_K1INV_ERR_WIRING)), "OBL fan-fallback: the fan retriangulation runs iff the fast path is not applicable");
     }
-    kani::cover!(r.is_ok() && vk_called(E_REPAIR), "COV ok with repair");
-    kani::cover!(r.is_err() && vk_called(E_REPAIR), "COV repair fails after removal");
-    kani::cover!(r.is_err() && bit(B_K1INV_ERR_WIRING), "COV wiring error");
-    kani::cover!(r.is_ok() && vk_called(E_FAN), "COV fan path ok");
+    kani::cover!(r.is_ok() && f(&REP_OK), "COV ok with repair");
+    kani::cover!(r.is_ok() && !repair_called && f(&K1_OK), "COV ok without repair (fast path)");
+    kani::cover!(r.is_err() && f(&REP_ERR), "COV repair fails after removal");
+    kani::cover!(r.is_err() && f(&K1_WIRING), "COV wiring error");
+    kani::cover!(r.is_ok() && f(&FAN_OK), "COV fan path ok");
+    kani::cover!(r.is_err() && f(&FAN_ERR), "COV fan path fails");
     core::mem::forget(r);
     core::mem::forget(dt);
 }
@@ -184,10 +220,11 @@ fn stub_k1<K, U, V, const D: usize>(
     tds: &mut Tds<K::Scalar, U, V, D>, _k: &K, _c: CellKey, _v: Vertex<K::Scalar, U, D>,
 ) -> Result<FlipInfo<D>, FlipError>
 where K: Kernel<D>, U: DataType, V: DataType {
-    vk_event(E_K1);
-    if vk_fails(B_K1_ERR) {
+    if kani::any() {
+        K1_OTHER.store(true, AOrd::Relaxed);
         Err(FlipError::UnsupportedDimension { dimension: 5 })
     } else {
+        K1_OK.store(true, AOrd::Relaxed);
         havoc(tds); // a vertex was added
         Ok(flip_info::<D>(1))
     }
@@ -198,8 +235,7 @@ where K: Kernel<D>, U: DataType, V: DataType {
 #[kani::stub(crate::core::algorithms::flips::apply_bistellar_flip_k1, stub_k1)]
 fn flip_k1_insert_index_contract() {
     let mut dt = any_dt();
-    let fail: u64 = kani::any();
-    vk_reset(fail, 0);
+    reset_flags();
     let seeded: bool = kani::any();
     if seeded {
         dt.spatial_index = Some(HashGridIndex::new(1e-10));
@@ -207,8 +243,8 @@ fn flip_k1_insert_index_contract() {
     dt.insertion_state.last_inserted_cell = if kani::any() { Some(ckey(0x1_0000_0001)) } else { None };
     let v: Vertex<f64, (), 2> = Vertex::new_with_uuid(Point::new([0.25, 0.25]), Uuid::nil(), None);
     let r = BistellarFlips::flip_k1_insert(&mut dt, ckey(0x1_0000_0001), v);
-    assert!(vk_called(E_K1) && vk_ncalls() == 1, "OBL delegates: the Edit-API insert delegates to the k=1 flip exactly once");
-    assert!(r.is_err() == ((fail >> B_K1_ERR) & 1 == 1), "OBL verdict: the flip's verdict is returned");
+    assert!(K1_OK.load(AOrd::Relaxed) != K1_OTHER.load(AOrd::Relaxed), "OBL delegates: the Edit-API insert delegates to the k=1 flip");
+    assert!(r.is_err() == K1_OTHER.load(AOrd::Relaxed), "OBL verdict: the flip's verdict is returned");
     if r.is_ok() {
         assert!(dt.spatial_index.is_none(), "OBL index-dropped: after a vertex entered behind the duplicate index, the index is dropped (rebuilt from all vertices on next use)");
     }
@@ -319,12 +355,11 @@ fn repair_entry_contract() {
     let mut dt = any_dt();
     dt.tri.topology_guarantee = any_guarantee();
     let tag0 = tag(&dt.tri.tds);
-    let fail: u64 = kani::any();
-    vk_reset(fail, 0);
+    reset_flags();
     let r = dt.repair_delaunay_with_flips();
-    assert!(vk_ncalls() <= 1, "OBL single-run: the engine wrapper runs at most once");
+    assert!(!(REP_OK.load(AOrd::Relaxed) && REP_ERR.load(AOrd::Relaxed)), "OBL single-run: the engine wrapper runs at most once");
     match &r {
-        Ok(_) => assert!(vk_called(E_REPAIR), "OBL ok-from-engine: Ok only comes from the repair wrapper"),
+        Ok(_) => assert!(REP_OK.load(AOrd::Relaxed), "OBL ok-from-engine: Ok only comes from the repair wrapper"),
         Err(_) => assert!(tag(&dt.tri.tds) == tag0, "OBL err-unchanged: Err => triangulation unchanged"),
     }
     kani::cover!(r.is_ok(), "COV ok");
